@@ -21,6 +21,7 @@ demand), helpers nested more than three deep.
 import copy
 import json
 import os
+import re
 
 _KNOWN = None
 
@@ -37,11 +38,19 @@ def known_functions():
     return _KNOWN
 
 
-def _rename(o, lmap, bmap):
-    """deep copy of a statement / terminator / debug entry with locals and block numbers renamed"""
+def _rename(o, lmap, bmap, refmap=None):
+    """deep copy of a statement / terminator / debug entry with locals and block numbers renamed.
+    refmap: renamed parameter local -> the caller's place it is a reference to (`helper(&mut flag)` with `flag` a local of
+    the caller): `*param` in the helper IS that place, so a write through the out-parameter becomes a plain assignment to
+    the caller's variable (references are otherwise transparent to the walker, which would not see the variable change)"""
     if isinstance(o, dict):
         if "l" in o and "p" in o and isinstance(o["p"], list):
-            return {"l": lmap(o["l"]), "p": [dict(e, local=lmap(e["local"])) if e.get("k") == "index" else dict(e) for e in o["p"]]}
+            nl = lmap(o["l"])
+            proj = [dict(e, local=lmap(e["local"])) if e.get("k") == "index" else dict(e) for e in o["p"]]
+            if refmap and nl in refmap and proj and proj[0].get("k") == "deref":
+                base = refmap[nl]
+                return {"l": base["l"], "p": [dict(e) for e in base["p"]] + proj[1:]}
+            return {"l": nl, "p": proj}
         out = {}
         for k, v in o.items():
             if k == "t" and isinstance(v, int):
@@ -51,10 +60,10 @@ def _rename(o, lmap, bmap):
             elif k == "targets" and isinstance(v, list):
                 out[k] = [[x[0], bmap(x[1])] for x in v]
             else:
-                out[k] = _rename(v, lmap, bmap)
+                out[k] = _rename(v, lmap, bmap, refmap)
         return out
     if isinstance(o, list):
-        return [_rename(v, lmap, bmap) for v in o]
+        return [_rename(v, lmap, bmap, refmap) for v in o]
     return o
 
 
@@ -94,6 +103,32 @@ def splice_body(b, bodies, is_new, stack=(), depth=0):
             nb["locals"].append({"i": l["i"] + L, "ty": l["ty"]})
         for d in callee["debug"]:
             nb["debug"].append({"name": d["name"], "v": _rename(d["v"], lmap, bmap) if "l" in d["v"] else d["v"]})
+        # out-parameters: an argument that is `&mut X` / `&X` of a plain local X of the caller, built just before the call
+        refmap = {}
+        for ai, a in enumerate(t["args"]):
+            if a.get("k") in ("move", "copy") and not a["place"]["p"]:
+                tl = a["place"]["l"]
+                base = None
+                cur = tl
+                for _hop in range(3):
+                    found = None
+                    for st in reversed(blk["stmts"]):
+                        if st.get("k") == "assign" and st["lhs"]["l"] == cur and not st["lhs"]["p"]:
+                            found = st["rv"]
+                            break
+                    if not (found and found.get("k") == "ref"):
+                        break
+                    pl = found["place"]
+                    if not pl["p"]:
+                        base = pl                      # t = &mut X
+                        break
+                    if len(pl["p"]) == 1 and pl["p"][0].get("k") == "deref":
+                        cur = pl["l"]                  # t = &mut *u   (a reborrow): go on with u
+                        continue
+                    break
+                if base is not None and callee["locals"][1 + ai]["ty"].startswith("&") and base["l"] > b["argc"] \
+                        and re.match(r"^&(mut )?(bool|[iu](8|16|32|64|size)|[\w:]+)$", callee["locals"][1 + ai]["ty"]) and "Vec" not in callee["locals"][1 + ai]["ty"]:
+                    refmap[L + 1 + ai] = base
         stmts = list(blk["stmts"])
         for ai, a in enumerate(t["args"]):
             stmts.append({"k": "assign", "lhs": {"l": L + 1 + ai, "p": []}, "rv": {"k": "use", "op": copy.deepcopy(a)}, "span": t["span"], "splice": "arg"})
@@ -102,7 +137,7 @@ def splice_body(b, bodies, is_new, stack=(), depth=0):
         blk["spliced_call"] = {"callee": name, "span": t["span"]}
         first = B
         for cb in callee["blocks"]:
-            x = {"i": cb["i"] + B, "cleanup": cb["cleanup"], "stmts": _rename(cb["stmts"], lmap, bmap), "term": _rename(cb["term"], lmap, bmap)}
+            x = {"i": cb["i"] + B, "cleanup": cb["cleanup"], "stmts": _rename(cb["stmts"], lmap, bmap, refmap), "term": _rename(cb["term"], lmap, bmap, refmap)}
             if "spliced_call" in cb:
                 x["spliced_call"] = cb["spliced_call"]
             x["from"] = cb.get("from", name)
